@@ -350,7 +350,8 @@ def _explore_once(mod, modname, inst, seed, W, res, t0):
                         'instance': inst['name'], 'path': i,
                         'decisions': len(p['trace']),
                         'verdict': 'holds for all inputs on this path',
-                        'witness': _short(p['witness'])})
+                        'witness': _short(p['witness']),
+                        'notes': _jsonable(p.get('notes') or {})})
             elif p['verdict'] == 'sat':
                 candidate(ctx, 'cex', p['cex'], p,
                           'oracle violated on path %d' % i)
